@@ -7,3 +7,6 @@
 #include "iface.h"
 #include "value_api.h"
 #include "evalnode.h"
+#include "arith.h"
+#include "libm_api.h"
+#include "std_api.h"
